@@ -259,7 +259,7 @@ func spec_asCommentGroup(n ast.Node) *ast.CommentGroup { g, _ := n.(*ast.Comment
 func spec_pkgInfoOf(p Package) *pkgInfo { pi, _ := p.(*pkgInfo); return pi }
 
 //@ func newPkg
-//@   props C13 C04 C06 C12 C14
+//@   props C13 C04 C06 C12 C14:F.cbinv[lit4
 //@   assigns *
 //@   preserves pkg/types.Universe. pkg/sumfile.File. golang.org/x/tools/go/packages. pkg/types.pkgInfo.imports pkg/types.pkgInfo.u
 //@   requires pkg != nil && pkg.Types != nil && pkg.Types.Scope() != nil && pkg.TypesInfo != nil && pkg.Fset != nil && u != nil
